@@ -78,9 +78,11 @@ CHECKS = {
         text="Machine-checked proof on the model of IntoMsg/IntoResponse: without a custom message the response is returned with every sub-message (order, id, payload, "
              "gas limit, trigger, content), attribute, event and data intact; the conversion fails iff some message is custom, with no partial response. The set of message "
              "kinds with a converting arm and the field-by-field forms are re-read from sylvia/src/into_response.rs on every run (obligation: every non-custom kind is covered). "
-             "Tie: real IntoResponse on thousands of generated Response<Empty> (12 message shapes) vs model and vs field-wise equality.",
+             "In addition both functions of sylvia/src/into_response.rs are regenerated as Lean definitions on every run (function translator; arms under #[cfg(feature)] become "
+             "`if feat ..`), and C11B.code_ok / code_err_iff / code_total prove the property about that regenerated code for every feature set at once. "
+             "Tie: real IntoResponse on thousands of generated Response<Empty> (12 message shapes) vs model, vs the regenerated code and vs field-wise equality.",
         design="§8 C11",
-        technique="Lean 4 proof (list induction) over a kind table regenerated from source + L3 differential",
+        technique="Lean 4 proof (list induction) about code regenerated from source by a function translator, and over a kind table regenerated from source; L3 differential",
         note=TB + " The dispatch arms that insert into_response / into_empty for `: custom(..)` interfaces are exercised on four compiled configurations (custom msg / query on or off) through the generated execute, sudo and query entry points (stream L2-custom-contracts), not proved."),
     "C20": dict(
         text="Machine-checked proof on the model of Remote: encoding is the single-member object {addr}, independent of the type index and of owned/borrowed; decode(encode r) "
